@@ -175,6 +175,8 @@ class Verdicts:
         self.findings = [f for f in load_findings(prop) if f.get("status") == "finding"]
         self.matcher = matcher or default_matcher
         self.known_hits: dict[str, int] = {}
+        for old in REPLAY.glob(f"{prop}-*.json"):      # replay files of earlier runs are stale
+            old.unlink()
         self.violations: list[dict] = []
         self.drift: list[dict] = []
         self._printed = 0
@@ -231,7 +233,13 @@ def default_matcher(fsig: dict, sig: dict, case) -> bool:
     signature (so a finding can only suppress the specific class it describes)."""
     if not fsig:
         return False
-    return all(sig.get(k) == v for k, v in fsig.items())
+    for k, v in fsig.items():
+        if k.endswith("_in"):
+            if sig.get(k[:-3]) not in v:
+                return False
+        elif sig.get(k) != v:
+            return False
+    return True
 
 
 # ----------------------------------------------------------------------------------------------
